@@ -1074,6 +1074,16 @@ pub fn c15(ctx: &mut Ctx, tier: &str, seed: u64) {
         dom.push(s.to_vec());
     }
     let dom = dedup_keep_order(dom);
+    // the rarely travelled surface (constructors taking a PathType, TryFrom out of a typed buffer, Debug of
+    // the typed iterators, …): see orc_e.rs
+    {
+        let mut rd: Vec<Vec<u8>> = dom.clone();
+        rd.extend(WIN_SEEDS.iter().map(|x| x.to_vec()));
+        rd.push(b"\xff/a".to_vec());
+        for win in [false, true] {
+            crate::orc_e::rare_surface_clause(ctx, "rarely-used-surface-agrees", win, &rd);
+        }
+    }
     let args: Vec<&[u8]> = vec![b"", b"a", b"..\\b", b"/x", b"C:y", b"a.b", br"\\?\C:\z", b".", b"a/../..", "é".as_bytes()];
     for s in &dom {
         crate::util::at(format!("derive {}", hex(s)));
@@ -1462,6 +1472,9 @@ pub fn c18(ctx: &mut Ctx, tier: &str, seed: u64) {
             if crate::util::quiet_catch(|| constructors(s)).is_err() {
                 ctx.fail("panic-in-constructor", None, format!("derive {}", hex(s)), "a From / FromStr / TryFrom / derive / Display call panicked".into());
             }
+            if crate::util::quiet_catch(|| crate::orc_e::rare_surface(win, s)).is_err() {
+                ctx.fail("panic-in-rarely-used-surface", None, format!("comps {} {}", gen::e(win), hex(s)), "a Debug / IntoIterator / TryFrom / as_path / from_utf8 call panicked".into());
+            }
             if let (Ok(st), Ok(sa)) = (std::str::from_utf8(s), std::str::from_utf8(a)) {
                 if t_utf8(win, st, sa).iter().any(|l| l == "PANIC") {
                     ctx.fail("panic-utf8", None, format!("comps {} {}", gen::e(win), hex(s)), format!("arg \"{}\"", lossy(a)));
@@ -1503,6 +1516,14 @@ pub fn c19(ctx: &mut Ctx, tier: &str, _seed: u64) {
     use std::sync::Arc;
     let t = tier_is_thorough(tier);
     let dom = strings_b(b"/a.\\\xc3\xa9\xff\xe2\x82\xac", if t { 5 } else { 4 });
+    {
+        let mut rd: Vec<Vec<u8>> = dom.clone();
+        rd.extend(WIN_SEEDS.iter().map(|x| x.to_vec()));
+        rd.extend(dict_win_paths().into_iter().step_by(7));
+        for win in [false, true] {
+            crate::orc_e::rare_surface_clause(ctx, "rarely-used-surface-agrees", win, &rd);
+        }
+    }
     // the process-level helpers hand out std's answers, byte for byte, in the native encoding
     #[cfg(all(feature = "std", unix))]
     {
@@ -1585,6 +1606,8 @@ pub fn c19(ctx: &mut Ctx, tier: &str, _seed: u64) {
             outs.push(("Cow::Owned", cow2.as_bytes().to_vec()));
             let bx2: Box<$P> = Box::from(cow2.clone());
             outs.push(("Box from Cow", bx2.as_bytes().to_vec()));
+            let bx3: Box<$P> = Box::from(cow.clone());
+            outs.push(("Box from Cow::Borrowed", bx3.as_bytes().to_vec()));
             outs.push(("PathBuf from Cow", <$B>::from(cow2).into_vec()));
             outs.push(("Vec::from(PathBuf)", Vec::<u8>::from(p.to_path_buf())));
             let r: &[u8] = p.as_ref();
@@ -1780,6 +1803,7 @@ pub fn c19(ctx: &mut Ctx, tier: &str, _seed: u64) {
                 ("Arc from PathBuf", Arc::<Utf8UnixPath>::from(p.to_path_buf()).as_str().to_string()),
                 ("Box from PathBuf", Box::<Utf8UnixPath>::from(p.to_path_buf()).as_str().to_string()),
                 ("Box from Cow", Box::<Utf8UnixPath>::from(Cow::<Utf8UnixPath>::from(p.to_path_buf())).as_str().to_string()),
+                ("Box from Cow::Borrowed", Box::<Utf8UnixPath>::from(Cow::<Utf8UnixPath>::from(p)).as_str().to_string()),
                 ("Cow from PathBuf", Cow::<Utf8UnixPath>::from(p.to_path_buf()).as_str().to_string()),
                 ("Cow from &PathBuf", Cow::<Utf8UnixPath>::from(&p.to_path_buf()).as_str().to_string()),
                 ("PathBuf from Cow", Utf8UnixPathBuf::from(Cow::<Utf8UnixPath>::from(p)).into_string()),
